@@ -2,6 +2,7 @@ package main
 
 import (
 	"encoding/json"
+	"regexp"
 	"fmt"
 	"os"
 	"path/filepath"
@@ -186,6 +187,22 @@ func cmdCheck(args []string) int {
 		}
 		rep := eng.VerifyFunction(fn, fc)
 		reports = append(reports, rep)
+		if pat := fc.Opts["only"]; pat != "" {
+			// the contract claims only the obligations matching the pattern for this function
+			re, err := regexp.Compile(pat)
+			if err != nil {
+				problems = append(problems, "bad 'opt only' pattern for "+fc.Key+": "+err.Error())
+			} else {
+				var kept []*Obligation
+				for _, o := range rep.Obligations {
+					if re.MatchString(o.Name) {
+						kept = append(kept, o)
+					}
+				}
+				rep.Skipped = len(rep.Obligations) - len(kept)
+				rep.Obligations = kept
+			}
+		}
 		obls = append(obls, rep.Obligations...)
 	}
 	nLemmas := 0
@@ -348,6 +365,10 @@ func writeEvidence(id string, opts checkOpts, eng *Engine, reports []*FuncReport
 			"obligation_instances": len(rep.Obligations)}
 		if rep.fc != nil && rep.fc.Trusted {
 			m["trusted"] = true
+		}
+		if rep.fc != nil && rep.fc.Opts["only"] != "" {
+			m["claimed_obligations_only"] = rep.fc.Opts["only"]
+			m["obligation_instances_not_claimed"] = rep.Skipped
 		}
 		if covers != nil {
 			m["cover"] = covers[rep.Fn]
